@@ -73,7 +73,7 @@ def main():
         "hooks": {
             "guard": "verif (Go build tag)",
             "enable": "go test -c -tags verif -overlay <gen>/overlay.json (the overlay holds the mechanically instrumented copies of /repo's files; /repo itself is never edited by a check)",
-            "baseline_off_cmd": "cd /repo && GOFLAGS=-mod=mod go test -vet=off -count=1 -timeout 25m ./...",
+            "baseline_off_cmd": "cd /repo && go test -mod=mod -json -vet=off -count=1 -timeout 25m ./...",
             "source_commits": hooks,
             "add_only": True,
         },
